@@ -284,6 +284,9 @@ func aolOps(acc aolAccounts, v aolVariant) []explore.Op {
 			txOp("Exec(X,DeleteWriter(A,a,W))", s(X), exec(X, aoltypes.NewMsgDeleteWriter("a", W.Bech, A.Bech))),
 			txOp("Exec(X,CreateTopic(A,ab))", s(X), exec(X, aoltypes.NewMsgCreateTopic("ab", "evil", A.Bech))),
 			txOp("Exec(X,AddRecord(A,a,writer=W))", s(X), exec(X, aoltypes.NewMsgAddRecordRequest("a", []byte("ke"), []byte("ve"), W.Bech, A.Bech, ""))),
+			// a message executed by the very account it names needs no grant - and is judged exactly like the plain message
+			txOp("Exec(X,AddRecord(A,a,writer=X))", s(X), exec(X, aoltypes.NewMsgAddRecordRequest("a", []byte("kx"), []byte("vxe"), X.Bech, A.Bech, ""))),
+			txOp("Exec(X,AddWriter(owner=X,a,X))", s(X), exec(X, aoltypes.NewMsgAddWriter("a", "x", "", X.Bech, X.Bech))),
 		)
 	}
 	ops = append(ops, ctlOps(v.Ctl...)...)
